@@ -9,6 +9,7 @@ EXPLANATION = (
     "patch application call in the workspace is inspected or propagated; (R4) the patch digest covers every field of "
     "every operation (obligations generated from the ADTs); (R5) the committed patch is the diff taken after "
     "application; (R6) every store field the appliers can modify is read by the differ. apply(diff(a,b),a)==b is NOT decided."
+    ' Round 5 (R10): every collection built by diff_state — the one function that walks all instances — is keyed by a type that carries the warp id (local ids are unique per warp only); Engine::jump_to_tick reaches a success return only through the reset to the preserved initial state followed by the patch replay (no digest-equality shortcut: the state root covers reachable content only).'
 )
 ASSUMPTIONS = ["BTreeMap operations are correct", "reverse indexes (edges_to, edge_index, edge_to_index) are functions of edges_from (exempt in R6)"]
 FLOOR = 60
